@@ -5,6 +5,10 @@
 import MelModel.VM.Value
 import MelModel.VM.Weight
 namespace Mel.VM
+
+/-- the largest length a byte string or vector can have (`usize::MAX` on the 64-bit targets the node runs on): growing
+    one beyond it fails the covenant (`fix:` for F13, the ropes' length counter used to overflow) -/
+def USIZE_MAX : Nat := 2 ^ 64 - 1
 open Mel Mel.Gen
 
 structure Oracles where
@@ -146,7 +150,7 @@ def execOp (o : Oracles) (op : Op) (st : Exec) : Option Exec :=
   | .vappend => (binop st.stack fun v1 v2 => do
       let a ← v1.intoVec
       let b ← v2.intoVec
-      pure (.vec (a ++ b))).bind ok
+      if a.length + b.length > USIZE_MAX then none else pure (.vec (a ++ b))).bind ok
   | .vslice => (triop st.stack fun vec b e => do
       let b ← b.intoU16
       let e ← e.intoU16
@@ -157,17 +161,19 @@ def execOp (o : Oracles) (op : Op) (st : Exec) : Option Exec :=
       | .vec l => some (.ofNat l.length)
       | _ => none).bind ok
   | .vempty => ok (.vec [] :: st.stack)
-  | .vpush => (binop st.stack fun vec item => vec.intoVec.map fun l => .vec (l ++ [item])).bind ok
-  | .vcons => (binop st.stack fun item vec => vec.intoVec.map fun l => .vec (item :: l)).bind ok
+  | .vpush => (binop st.stack fun vec item => vec.intoVec.bind fun l =>
+      if l.length + 1 > USIZE_MAX then none else some (.vec (l ++ [item]))).bind ok
+  | .vcons => (binop st.stack fun item vec => vec.intoVec.bind fun l =>
+      if l.length + 1 > USIZE_MAX then none else some (.vec (item :: l))).bind ok
   | .bempty => ok (.bytes [] :: st.stack)
   | .bpush => (binop st.stack fun vec val => do
       let l ← vec.intoBytes
       let v ← val.intoTruncU8
-      pure (.bytes (l ++ [v]))).bind ok
+      if l.length + 1 > USIZE_MAX then none else pure (.bytes (l ++ [v]))).bind ok
   | .bcons => (binop st.stack fun item vec => do
       let l ← vec.intoBytes
       let v ← item.intoTruncU8
-      pure (.bytes (v :: l))).bind ok
+      if l.length + 1 > USIZE_MAX then none else pure (.bytes (v :: l))).bind ok
   | .bref => (binop st.stack fun vec idx => do
       let i ← idx.intoU16
       let l ← vec.intoBytes
@@ -183,7 +189,7 @@ def execOp (o : Oracles) (op : Op) (st : Exec) : Option Exec :=
   | .bappend => (binop st.stack fun v1 v2 => do
       let a ← v1.intoBytes
       let b ← v2.intoBytes
-      pure (.bytes (a ++ b))).bind ok
+      if a.length + b.length > USIZE_MAX then none else pure (.bytes (a ++ b))).bind ok
   | .bslice => (triop st.stack fun vec b e => do
       let b ← b.intoU16
       let e ← e.intoU16
